@@ -154,6 +154,53 @@ def stream_rename(ctx):
         ctx.stream_broken('rename', f'{len(st.disagreements)} disagreements; first: {json.dumps(st.disagreements[0], default=str)[:600]}')
 
 
+def stream_results_names(ctx):
+    st = ctx.stream('results_names', 'synthetic estimation outcomes whose every number is tagged by its parameter (estimate 10+j, bootstrap '
+                    'column 100j+row, bounds +-(j+1), Hessian diag -(1+j)): every name-based accessor of bioResults called with full, partial and '
+                    're-ordered lists of names; non-trivial = a request that is not the full sorted list; distinct by (names, request)')
+    rng = ctx.sub_rng('results')
+    from gen_expr import BETA_NAMES
+    cases = []
+    for _ in range(ctx.n(40, 600)):
+        K = rng.randint(1, 6)
+        names = sorted(rng.sample(BETA_NAMES, K))
+        reqs = [list(names), list(reversed(names))]
+        for _ in range(3):
+            k = rng.randint(1, K)
+            reqs.append(rng.sample(names, k))
+        cases.append({'names': names, 'B': rng.choice([0, 3, 5]), 'requests': reqs})
+    res = ctx.impl_cases('c03_results.py', cases, chunk=20)
+    for c, r in zip(cases, res):
+        names = c['names']
+        tag = {n: j for j, n in enumerate(names)}
+        if 'exc' in r or 'crash' in r:
+            ctx.violation('C03/results/exception', 'a results object could not be built / queried', c, None, r.get('exc') or r.get('crash'))
+            continue
+
+        def expect(what, got, want, req=None):
+            if got != want:
+                ctx.violation(f'C03/results/{what}', f'{what}: a value is attached to another parameter\'s name',
+                              {'names': names, 'request': req, 'B': c['B']}, want, got)
+                st.disagree({'names': names, 'request': req}, want, got, what)
+
+        expect('get_beta_values', r['get_beta_values_all'], {n: 10.0 + tag[n] for n in names})
+        expect('estimated-parameters-table', r['estimated'], {n: 10.0 + tag[n] for n in names})
+        expect('betas-bounds', r['betas_lb'], {n: -(tag[n] + 1.0) for n in names})
+        expect('betas-values', r['betas_val'], {n: 10.0 + tag[n] for n in names})
+        expect('varcovar-labels', {n: round(v, 9) for n, v in r['varcovar_diag'].items()}, {n: round(1.0 / (1.0 + tag[n]), 9) for n in names})
+        expect('stderr', {n: round(v, 9) for n, v in r['stderr'].items()}, {n: round((1.0 / (1.0 + tag[n])) ** 0.5, 9) for n in names})
+        for q in r['requests']:
+            req = q['names']
+            st.record({'names': names, 'request': req, 'B': c['B']}, nontrivial=req != names)
+            if 'get_beta_values' in q:
+                expect('get_beta_values-subset', q['get_beta_values'], {n: 10.0 + tag[n] for n in req}, req)
+            if 'sens_boot' in q:
+                want = [{n: 100.0 * tag[n] + row for n in req} for row in range(c['B'])]
+                expect('sensitivity-bootstrap', q['sens_boot'], want, req)
+    if st.disagreements:
+        ctx.stream_broken('results_names', f'{len(st.disagreements)} disagreements; first: {json.dumps(st.disagreements[0], default=str)[:500]}')
+
+
 def uses(t, nm):
     if t['h'][0] == 'Beta' and t['h'][1] == nm:
         return True
@@ -170,6 +217,7 @@ def run(ctx):
     st_ids = ctx.stream('ids', 'IdManager tables vs Model/IdMgr.v prepare; malformed sub-stream: one name for two kinds of element must be refused')
     run_sig_streams(ctx, st_sig, st_ids, ctx.n(80, 2000), ctx.n(30, 400))
     stream_rename(ctx)
+    stream_results_names(ctx)
 
 
 def replay(ctx, path):
